@@ -328,8 +328,11 @@ def cmp_except(c, io, drv, exact, label):
     spec = [dec(x) for x in drv["spec"]] if drv["spec"] is not None else None
     m = drv["model"]
     if "err" in m:
+        spec_end = c.get("exp_end", "stop")
+        if spec_end == "auto":
+            spec_end = "fuel" if spec is not None and len(spec) == c["n"] else "stop"
         as_coded = (got == [] and io["end"] == m["err"])
-        as_spec = spec is not None and io["end"] == "stop" and same_vals(got, spec, exact)
+        as_spec = spec is not None and io["end"] == spec_end and same_vals(got, spec, exact)
         if not (as_coded or as_spec):
             res.append(("model", "%s: impl=%s/%s, the code as modelled raises %s" % (label, io["out"], io["end"], m["err"])))
         if spec is not None and not as_spec:
@@ -376,9 +379,8 @@ def line_exact(c):
     else:
         dur, b, e = qv(c["dur"]), F(0), F(1)
         den = dur
-    if den == 0:
-        return True
-    return is_dyadic(dur, 20) and is_dyadic(b, 20) and is_dyadic(e, 20) and is_dyadic((e - b) / den, 20)
+    return (is_dyadic(dur, 20) and is_dyadic(b, 20) and is_dyadic(e, 20)
+            and (den == 0 or is_dyadic((e - b) / den, 20)))
 
 
 def impl_line(c):
@@ -594,14 +596,12 @@ def adsr_exact(c):
     a, d = qv(c["a"]), qv(c["d"])
     if c["entry"] == "adsr":
         s, r, dur = qv(c["s"]), qv(c["r"]), qv(c["dur"])
-        if 0 in (a, d, r):
-            return True
-        return all(is_dyadic(x, 20) for x in (dur, a, d, r, s, 1 / a, (s - 1) / d, s / r))
-    if 0 in (a, d):
-        return True
+        slopes = [x / y for x, y in ((F(1), a), (s - 1, d), (s, r)) if y != 0]
+        return all(is_dyadic(x, 20) for x in [dur, a, d, r, s] + slopes)
     sa = c["s"]
-    s0 = dec(sa["num"]) if "num" in sa else dec(sa["strm"][0])
-    return all(is_dyadic(x, 20) for x in (a, d, 1 / a, (s0 - 1) / d))
+    sus = [dec(sa["num"])] if "num" in sa else [dec(x) for x in sa["strm"]]
+    slopes = [x / y for x, y in ((F(1), a), (sus[0] - 1, d)) if y != 0]
+    return all(is_dyadic(x, 20) for x in [a, d] + sus + slopes)
 
 
 def impl_adsr(c):
